@@ -96,6 +96,7 @@ package certs
 // The wire form of a name in the byte-stream model (prelude): block size (label length + 3), type, label length, label.
 //@   ensures err == nil ==> n == 3 + int64(len(name.Label)) && spos == update(old(spos), ref(w), old(spos)[ref(w)] + 3 + len(name.Label))
 //@   ensures err == nil ==> nameAt(ref(w), old(spos)[ref(w)], name) && sbyte(ref(w), old(spos)[ref(w)]) == uint8(len(name.Label) + 3)
+//@ spec rec noffS(s Ref, p int, k int) int = (k <= 0 ? p : (let o = noffS(s, p, k - 1) in o + 3 + int(sbyte(s, o + 2))))
 //@ macro nameAt(s, p, nm) = sbyte(s, p + 1) == uint8(nm.Type) && sbyte(s, p + 2) == uint8(len(nm.Label)) && srange(s, p + 3, len(nm.Label)) == bytes(nm.Label)
 // The decoder accepts this form (any block size of at least label length + 3) and returns what it found there.
 //@ func (name *Name) ReadFrom(r io.Reader) (n int64, err error)
@@ -116,8 +117,14 @@ package certs
 //@   ensures 0 <= n && n <= 36028797018963968
 //@   ensures err == nil ==> n >= 2 && spos == update(old(spos), ref(w), old(spos)[ref(w)] + int(n))
 //@   ensures err == nil ==> be16(sbyte(ref(w), old(spos)[ref(w)]), sbyte(ref(w), old(spos)[ref(w)] + 1)) == uint16(resultof(certs.IDChunk.SerializedLen, n))
+// the interior of the chunk: the k-th name lies at the offset found by walking the stream itself k names forward from
+// the first one (each name is 3 + its label-length byte long) - the same walk the decoder performs
+//@   ensures err == nil ==> (forall k int :: 0 <= k && k < len(chunk.Blocks) ==> nameAt(ref(w), noffS(ref(w), old(spos)[ref(w)] + 2, k), chunk.Blocks[k]))
+//@   ensures err == nil ==> old(spos)[ref(w)] + int(n) == noffS(ref(w), old(spos)[ref(w)] + 2, len(chunk.Blocks))
 //@   loop 1
 //@     invariant written >= 2 && rangeindex < len(chunk.Blocks) && written <= 2 + 255 * (int64(rangeindex) + 1) && spos == update(old(spos), ref(w), old(spos)[ref(w)] + int(written))
+//@     invariant forall k int :: 0 <= k && k <= rangeindex ==> nameAt(ref(w), noffS(ref(w), old(spos)[ref(w)] + 2, k), chunk.Blocks[k])
+//@     invariant old(spos)[ref(w)] + int(written) == noffS(ref(w), old(spos)[ref(w)] + 2, rangeindex + 1)
 //@     invariant be16(sbyte(ref(w), old(spos)[ref(w)]), sbyte(ref(w), old(spos)[ref(w)] + 1)) == uint16(resultof(certs.IDChunk.SerializedLen, n))
 // ... and the decoder accepts every announced length from 2 to 512: with such a length it does not take the
 // invalid-length return (which is the only error return before the first name is read)
@@ -129,6 +136,8 @@ package certs
 //@   ensures 0 <= n && n <= 1300
 //@   ensures err == nil ==> n >= 2 && spos == update(old(spos), ref(r), old(spos)[ref(r)] + int(n))
 //@   ensures err == nil ==> be16(sbyte(ref(r), old(spos)[ref(r)]), sbyte(ref(r), old(spos)[ref(r)] + 1)) == announced
+// (the interior on the decoding side - that the k-th name appended is the one found by the same walk - was formulated but its
+// loop invariant over the appended slice elements takes the solvers minutes, so it is not claimed)
 //@   loop 1
 //@     invariant bytesRead >= 2 && blockBytesRead >= 0 && blockBytesRead < 1024 && bytesRead == 2 + blockBytesRead && blockLen == chunkLen - 2 && chunkLen <= 512 && spos == update(old(spos), ref(r), old(spos)[ref(r)] + int(bytesRead))
 //@     invariant be16(sbyte(ref(r), old(spos)[ref(r)]), sbyte(ref(r), old(spos)[ref(r)] + 1)) == chunkLen
